@@ -27,7 +27,8 @@ pub const WAIT_TIMEOUT_ENTER: u32 = 16;
 pub const WAKE_DONE: u32 = 17;
 pub const SEND_WRITTEN: u32 = 18;
 pub const RECV_READ: u32 = 19;
-pub const N_POINTS: usize = 20;
+pub const TIMED_BEFORE_CANCEL: u32 = 20;
+pub const N_POINTS: usize = 21;
 
 pub const POINT_NAMES: [&str; N_POINTS] = [
     "SEND_ENTER",
@@ -50,6 +51,7 @@ pub const POINT_NAMES: [&str; N_POINTS] = [
     "WAKE_DONE",
     "SEND_WRITTEN",
     "RECV_READ",
+    "TIMED_BEFORE_CANCEL",
 ];
 
 #[allow(clippy::declare_interior_mutable_const)]
